@@ -13,7 +13,7 @@ from sim import gen_path as gp
 
 SHAPES = ["rect", "circle", "ellipse", "line", "polyline", "polygon", "path"]
 CONTAINERS = ["g", "svg", "defs"]
-COLORS = ["red", "blue", "#123456", "#abc", "rgb(10,20,30)", "rgb(10%,20%,30%)", "none", "currentColor", "green", "#ff000080", "hsl(120,100%,50%)", "black", "orange"]
+COLORS = ["red", "blue", "#123456", "#abc", "rgb(10,20,30)", "rgb(10%,20%,30%)", "none", "currentColor", "green", "#ff000080", "hsl(120,100%,50%)", "black", "orange", "#12345600", "rgba(10,20,30,0)", "#0f08"]
 TRANSFORMS = [
     "translate(10,20)", "translate(-5.5)", "scale(2)", "scale(0.5,3)", "rotate(30)", "rotate(45,10,10)", "scale(-1,1)",
     "matrix(1,0.5,-0.3,2,5,6)", "skewX(10)", "translate(10,0) rotate(90)", "scale(1,-1) translate(0,-50)", "matrix(0.5 0 0 0.5 1 1)",
@@ -238,6 +238,27 @@ def gen_doc(ch, max_elems=12, max_depth=3, **opts):
                     e["attrs"][hattr] = "#" + ch.choice(cands)
                     continue
             e["attrs"][hattr] = "#none-such"
+    if opts.get("use_heavy"):
+        # a container that is instantiated by a use placed before it and by one placed after it
+        groups = [e for e in walk(root) if e["tag"] == "g" and e["kids"]]
+        if not groups:
+            gnew = g.elem("g", {}, kids=[gen_shape(ch, ch.choice(SHAPES), g.classes), gen_shape(ch, ch.choice(SHAPES), g.classes)])
+            root["kids"].insert(ch.int(0, len(root["kids"])), gnew)
+            groups = [gnew]
+        tgt = ch.choice(groups)
+        if "id" not in tgt["attrs"]:
+            tgt["attrs"]["id"] = "grp%d" % len(g.ids)
+        for where in ("before", "after", "after"):
+            a = {ch.choice(["href", "xlink:href"]): "#" + tgt["attrs"]["id"]}
+            if ch.coin(0.5):
+                a["transform"] = ch.choice(TRANSFORMS)
+            if ch.coin(0.3):
+                a["x"], a["y"] = _num(ch), _num(ch)
+            u = g.elem("use", a)
+            if where == "before":
+                root["kids"].insert(0 if root["kids"] and root["kids"][0]["tag"] != "style" else 1, u)
+            else:
+                root["kids"].append(u)
     number(root)
     # uses must not form cycles in the fault-free document
     break_cycles(root)
@@ -460,6 +481,19 @@ def apply_faults(ch, root, n_faults, bias=None):
                         used.add(h[1:])
             sel = [c for c in cands if c[0]["attrs"].get("id") in used]
             pool = sel or cands
+        elif bias == "in-used":
+            used = set()
+            for e in walk(root):
+                if e["tag"] == "use":
+                    _, h = href_of(e)
+                    if h:
+                        used.add(h[1:])
+            sel = []
+            for e in walk(root):
+                if e["attrs"].get("id") in used and e["kids"]:
+                    inner = {id(x) for x in walk(e)} - {id(e)}
+                    sel += [c for c in cands if id(c[0]) in inner]
+            pool = sel or cands
         elif bias == "edge":
             sel = []
             for e, parent in walk_with_parent(root):
@@ -548,9 +582,13 @@ def _ancestor_chain(root, target):
 
 def exempt_set(root, offending):
     """Serial numbers of the source elements whose instances are unconstrained:
-    the offending elements and their descendants, everything referenced
-    (transitively) by a use inside that set, and every use (with the subtree it
-    references) that points into that set."""
+    the offending elements and their descendants, and everything referenced
+    (transitively) by a use inside that set (its expansion instantiates that
+    content once more, inside the offending subtree). A use *outside* the set that
+    points at a container holding an offending element is not exempt: the instances
+    it makes of the container's other children are outside the offending element's
+    subtree and must come out as if the offending element were not there; only the
+    instance of the offending element itself (same serial) is filtered out."""
     ids = by_id(root)
     byn = {e["n"]: e for e in walk(root)}
     E = set()
@@ -571,11 +609,6 @@ def exempt_set(root, offending):
             tset = {x["n"] for x in walk(tgt)}
             if e["n"] in E and not tset <= E:
                 E |= tset
-                changed = True
-            if tset & E and not (tset | {e["n"]}) <= E:
-                # the use points into the set: it and what it references are exempt
-                E |= tset
-                E.add(e["n"])
                 changed = True
     return E
 
